@@ -210,6 +210,19 @@ F64Int(b) ==
               p  == 2 ^ sh
           IN IF m % p # 0 THEN [ok |-> FALSE, v |-> 0]
              ELSE [ok |-> TRUE, v |-> IF neg THEN 0 - (m \div p) ELSE m \div p]
+(* twice the value of a decoded double, when that is an integer (multiples of 0.5 below 2^19): [ok, v] *)
+F64Half(b) ==
+  LET neg == b[1] >= 128
+      ex  == (b[1] % 128) * 16 + b[2] \div 16
+      top == (b[2] % 16) * 65536 + b[3] * 256 + b[4]
+      low0 == b[5] = 0 /\ b[6] = 0 /\ b[7] = 0 /\ b[8] = 0
+      e   == ex - 1023
+  IN IF ex = 0 /\ top = 0 /\ low0 THEN [ok |-> TRUE, v |-> 0]
+     ELSE IF ~low0 \/ e < -1 \/ e > 18 THEN [ok |-> FALSE, v |-> 0]
+     ELSE LET m == 1048576 + top
+              p == 2 ^ (19 - e)
+          IN IF m % p # 0 THEN [ok |-> FALSE, v |-> 0]
+             ELSE [ok |-> TRUE, v |-> IF neg THEN 0 - (m \div p) ELSE m \div p]
 F32Int(b) ==
   LET neg == b[1] >= 128
       ex  == (b[1] % 128) * 2 + b[2] \div 128
@@ -226,6 +239,10 @@ NumInt(d) ==
     [] d.k = "bits" /\ d.code = FSINGL -> F32Int(d.b)
     [] OTHER -> [ok |-> FALSE, v |-> 0]
 OneNum(a) == IF ~a.absent /\ Len(a.vals) = 1 THEN NumInt(a.vals[1]) ELSE [ok |-> FALSE, v |-> 0]
+(* twice the decoded number, when that is an integer *)
+OneHalf(a) == IF a.absent \/ Len(a.vals) # 1 THEN [ok |-> FALSE, v |-> 0]
+              ELSE IF a.vals[1].k = "bits" /\ a.vals[1].code = FDOUBL THEN F64Half(a.vals[1].b)
+              ELSE LET x == NumInt(a.vals[1]) IN [ok |-> x.ok /\ Abs(x.v) < 500000, v |-> 2 * x.v]
 
 RECURSIVE SliceSlots(_, _, _, _)
 SliceSlots(data, p, sizes, acc) ==
@@ -331,12 +348,18 @@ FrameClauses(dec, rgs, lfs, cobj, fe, multi) ==
              \* (the index values are integers below 2^20 here, so a truthful bound decodes to such an integer)
              THEN (IF ~uMin /\ ~(OneNum(imin).ok /\ OneNum(imin).v = vmin) THEN {"C13.IndexMin"} ELSE {})
              \cup (IF ~uMax /\ ~(OneNum(imax).ok /\ OneNum(imax).v = vmax) THEN {"C13.IndexMax"} ELSE {})
-             \cup (IF ~uSpc /\ ~spc.absent /\ n >= 2 /\ OneNum(spc).ok
-                   THEN LET s == OneNum(spc).v IN
+             \* (judged in doubled values, so that a spacing of k + 0.5 - the median of an even number of integer differences - is judged too)
+             \cup (IF ~uSpc /\ ~spc.absent /\ n >= 2 /\ OneHalf(spc).ok /\ (\A i \in 1..(n - 1) : Abs(d[i]) < 500000)
+                   THEN LET s == OneHalf(spc).v
+                            dd == [i \in 1..(n - 1) |-> 2 * d[i]]
+                            le == Cardinality({ i \in 1..(n - 1) : dd[i] <= s })
+                            ge == Cardinality({ i \in 1..(n - 1) : dd[i] >= s })
+                        IN
                         (IF \A i \in 1..(n - 1) :
-                               IF s # 0 /\ Abs(s) <= 20000 /\ Abs(d[i]) <= 20000 THEN 1000 * (s - d[i]) * (s - d[i]) < s * s ELSE d[i] = s
+                               IF s # 0 /\ Abs(s) <= 20000 /\ Abs(dd[i]) <= 20000 THEN 1000 * (s - dd[i]) * (s - dd[i]) < s * s ELSE dd[i] = s
                          THEN {} ELSE {"C13.SpacingOnlyIfUniform"})
-                   \cup (IF (\E i \in 1..(n - 1) : d[i] <= s) /\ (\E i \in 1..(n - 1) : d[i] >= s) THEN {} ELSE {"C13.SpacingValue"})
+                   \* "that signed difference": a typical one - at least half of the differences are not above it, at least half not below
+                   \cup (IF 2 * le >= n - 1 /\ 2 * ge >= n - 1 THEN {} ELSE {"C13.SpacingValue"})
                    ELSE {})
              \cup (IF ~uSpc /\ ~uDir /\ spc.absent /\ n >= 2
                    THEN (IF (\A i \in 1..(n - 1) : d[i] > 0) /\ OneStr(dir) # sINCREASING THEN {"C13.Direction"} ELSE {})
